@@ -268,7 +268,7 @@ def prio(index, rep):
         if len(feeds) == 2:
             f1, f2 = feeds
             okt = len(f1.args) == 3 and _is(f1.args[0], "P3") and _is(f1.args[1], "P2") and \
-                _is(f2.args[0], "elemcall:feed_the_species#0") and _is(f2.args[1], "elemcall:feed_the_species#1")
+                _is(f2.args[0], f"{f1.tag}#0") and _is(f2.args[1], f"{f1.tag}#1")
             ov.leaf("resources threaded (grass, feed) in, (grass, feed) out", okt,
                     "what one species leaves is not what the next species is offered (grass/feed crossed or not carried over)", dec)
             flags = [herd.dec_true(dec, "elem in P1"), herd.dec_true(dec, "elem2 in P1")]
@@ -276,7 +276,7 @@ def prio(index, rep):
             ov.leaf("ruminant flag = membership in the ruminant list", okr, "the ruminant flag passed to feeding is not `animal in ruminants`", dec)
             ret = _ev(ev, "return")
             okret = len(ret) == 1 and isinstance(ret[0].args[0], tuple) and len(ret[0].args[0]) == 2 and \
-                _is(ret[0].args[0][0], "elemcall:elem2.feed_the_species#1") and _is(ret[0].args[0][1], "elemcall:elem2.feed_the_species#0")
+                _is(ret[0].args[0][0], f"{f2.tag}#1") and _is(ret[0].args[0][1], f"{f2.tag}#0")
             ov.leaf("returns (feed, grass) left by the last species", okret, "feed_animals does not return (feed left, grass left)", dec)
     ov.done()
     no_exit = not [n for n in ast.walk(fn) if isinstance(n, (ast.Break, ast.Continue))] and len([n for n in ast.walk(fn) if isinstance(n, ast.Return)]) == 1
